@@ -21,13 +21,15 @@ LEAN_MODULES = ["VgiVerif.Proofs.C13"]
 EXTRACTORS = ["gen_c12"]
 OBLIGATIONS = [
     "VgiVerif.C13.binding_in_place",
+    "VgiVerif.C13.C13_call_aad_binds_method",
     "VgiVerif.C13.C13_method_bound",
     "VgiVerif.C13.C13_foreign_rejected",
     "VgiVerif.C13.C13_streams_stay_with_method",
 ]
 TRUSTED = base.TRUSTED
 RULE = (
-    "generated services x all ordered pairs (A, B) of distinct stream methods x every token of A's stream (each cursor, "
+    "generated services (method-name families: short, long names sharing 15..256-character stems, prefix chains, non-ASCII "
+    "identifiers, trailing '_'/'0') x all ordered pairs (A, B) of distinct stream methods x every token of A's stream (each cursor, "
     "the call token, and A/B mixed pairs) x {continue, exchange, cancel} x {minting worker, cold worker, second warmed "
     "worker}; distinct by (service, pair, token index, op, worker); non-trivial = A != B"
 )
@@ -63,9 +65,50 @@ FIXED = [
 ]
 
 
-def gen_service(rng: Any) -> list[dict[str, Any]]:
+FIXED.append(  # long names that agree on their first 32 / 38 characters; same and different state classes
+    [{"name": "list_customer_transactions_by_region_v1", "kind": "producer", "states": ["SA"]},
+     {"name": "list_customer_transactions_by_region_v2", "kind": "producer", "states": ["SA"]},
+     {"name": "list_customer_transactions_by_region", "kind": "exchange", "states": ["SB"]},
+     {"name": "list_orders", "kind": "producer", "states": ["SC"]}])
+
+FAMILIES = ["short", "long-shared-prefix", "prefix-chain", "non-ascii", "trailing"]
+_IDENT_CHARS = "abcdefghijklmnopqrstuvwxyz_0123456789"
+
+
+def name_family(rng: Any, family: str, k: int) -> list[str]:
+    """k distinct method names (valid identifiers, not starting with '_') of one family.
+
+    The method name is a segment of the call token's AAD, so the dimension that matters is how names relate as byte
+    strings: equal up to some length (any truncation width), one a prefix of another (any terminator scheme), multi-byte
+    characters (byte vs character counts), characters that look like padding.
+    """
+    if family == "short":
+        return rng.sample(NAMES, k)
+    if family == "long-shared-prefix":
+        n = rng.choice([15, 16, 31, 32, 33, 40, 63, 64, 65, 127, 128, 200, 255, 256])
+        stem = "m" + "".join(rng.choice(_IDENT_CHARS) for _ in range(n - 1))
+        cands = [stem + "1", stem + "2", stem, stem + "_v1", stem + "_v2", stem[:-1], stem + stem]
+        return cands[:2] + rng.sample(cands[2:], k - 2) if k > 2 else cands[:2]
+    if family == "prefix-chain":
+        stem = rng.choice(["s", "gen", "stream", "a"])
+        chain = [stem]
+        while len(chain) < k:
+            chain.append(chain[-1] + rng.choice("abx_0"))
+        return chain
+    if family == "non-ascii":
+        pool = ["m\u00e9tho", "m\u00e9thod\u00e9", "m\u00e9thod", "\u540d\u524d", "\u540d\u524d2", "\u540d", "gen\u00e9", "gene",
+                "\u00e9" * 16 + "a", "\u00e9" * 16 + "b", "\u00e9" * 15 + "ea", "\u03b1\u03b2", "\u03b1\u03b2\u03b3"]
+        return rng.sample(pool, k)
+    if family == "trailing":
+        stem = rng.choice(["gen", "p" * 30, "q" * 31, "r" * 32])
+        cands = [stem, stem + "_", stem + "__", stem + "0", stem + "00", stem + "x", stem + "O"]
+        return rng.sample(sorted(set(cands)), k)
+    raise ValueError(family)
+
+
+def gen_service(rng: Any, family: str = "short") -> list[dict[str, Any]]:
     k = rng.choice([2, 2, 3, 3, 4, 5])
-    names = rng.sample(NAMES, k)
+    names = name_family(rng, family, k)
     out = []
     for nm in names:
         kind, states, cs = rng.choice(TEMPLATES)
@@ -193,16 +236,54 @@ def service_campaign(ctx: Any, service: list[dict[str, Any]], si: int) -> None:
         env.close()
 
 
+def k_call_aad(ctx: Any) -> None:
+    """The call AAD as a function of (method, identity): model vs `_compute_call_aad`, and — the binding itself — no two
+    distinct methods share an AAD for one identity (nor two identities for one method)."""
+    from vgi_rpc.http.server._state_token import _compute_call_aad
+
+    rng = ctx.rng
+    names: list[str] = list(NAMES)
+    for fam in FAMILIES:
+        for _ in range(ctx.budget(6, 120)):
+            names += name_family(rng, fam, rng.choice([2, 3, 5]))
+    names = sorted(set(names))
+    idents: list[Any] = [None, ("user", "d", "alice"), ("user", "", ""), ("user", "ab", "c"), ("user", "a", "bc")]
+    reqs = [("Token.callAad", {"who": T.ident_model(i), "method": s2j(n)}) for n in names for i in idents]
+    res = ctx.driver.batch(reqs) if ctx.driver is not None else None
+    seen: dict[bytes, tuple[str, Any]] = {}
+    k = 0
+    for n in names:
+        for i in idents:
+            a = _compute_call_aad(T.auth_of(i), n)
+            case = {"kind": "call-aad", "method": n, "ident": list(i) if i else None}
+            ctx.case(case, nontrivial=True, tags=("k:call-aad", f"name-bytes:{min(len(n.encode()) // 32 * 32, 256)}+"))
+            if res is not None and res[k] != a.hex():
+                ctx.mismatch(case, res[k], a.hex(), "call AAD bytes: model vs implementation")
+            k += 1
+            who = (n, T.ident_key(i))
+            if a in seen and seen[a] != who:
+                other = seen[a]
+                base.fail(ctx, {**case, "collides_with": {"method": other[0], "ident": other[1]}},
+                          "C13:call-aad-collision:" + ("method" if other[1] == who[1] else "identity"),
+                          f"call AAD of method {n!r} equals that of method {other[0]!r} (identities {who[1]!r} / {other[1]!r}): "
+                          "a call token minted by one opens at the other")
+            seen[a] = who
+
+
 def run(ctx: Any) -> None:
     services = [list(s) for s in FIXED]
-    for _ in range(ctx.budget(26, 1000)):
-        services.append(gen_service(ctx.rng))
+    k_call_aad(ctx)
+    for i in range(ctx.budget(26, 1000)):
+        services.append(gen_service(ctx.rng, FAMILIES[i % len(FAMILIES)]))
     for si, svc in enumerate(services):
         service_campaign(ctx, svc, si)
     ctx.note("services", len(services))
 
 
 def replay(ctx: Any, case: dict[str, Any]) -> None:
+    if case.get("kind") == "call-aad":
+        k_call_aad(ctx)
+        return
     env = base.Env(service=case["service"])
     pending: list[Any] = []
     try:
